@@ -1704,6 +1704,7 @@ def run(ctx):
     chunk = 130
     done = 0
     first_dis = []
+    shrunk = set()
     while done < n_hist:
         batch = LeanBatch(ctx.workdir)
         worlds = []
@@ -1735,7 +1736,11 @@ def run(ctx):
                 if f["what"] in seen:
                     continue
                 seen.add(f["what"])
-                small, ff = shrink_monitor(case, f["what"])
+                if f["what"] in shrunk:
+                    small, ff = case, f     # one shrunk history per kind of failure is enough
+                else:
+                    shrunk.add(f["what"])
+                    small, ff = shrink_monitor(case, f["what"])
                 ff = ff or f
                 ctx.monitor_fail("monitor", small, {"failure": ff["what"], "at_operation": ff["step"], "detail": ff["detail"],
                                                     "history": summarize(small)},
